@@ -789,6 +789,10 @@ def run(ctx):
         if ok and r[0] == "ok" and not same(val, r[1]):
             ctx.note(f"transform pathway reads {t!r} as JSON: {ascii(val)} (len {len(val[0])}) where Python gives "
                      f"{ascii(r[1])} (len {len(r[1][0])}); not judged - the pathway documents JSON-first parsing")
+    ok, val, pw = run_engine("pi()", "math")
+    if ok:
+        ctx.note(f"calling an allow-listed CONSTANT succeeds: metabolize('pi()') -> {short(val)} where Python raises TypeError; "
+                 "not judged - the statement's grammar only has calls of allow-listed functions")
     if EXTRA_NAMES:
         ctx.note(f"allow-listed names beyond the documented list (taken from the engine's table, not vetted): {EXTRA_NAMES}")
     missing = sorted(DOC - set(Mitochondria.SAFE_FUNCTIONS))
@@ -811,9 +815,11 @@ def run(ctx):
         rule="engine D: every derivation of the expression grammar in the layers F1 (depth 1 over 16 leaves, complete), "
         "P2 (depth 2: >=1 child = value-class representative of a depth-1 layer, others leaves), P3 (thorough, depth 3 "
         "likewise), VAL (every member of the validation layer in every depth-1 context), FE (unreduced trigger-string "
-        "expressions in observing contexts), TV (hand-written lexical variants), TOOL (tool-call arguments); a state is one "
-        "expression text, a transition one metabolize() call of it on one pathway (auto, math, logic, transform[, tool]); "
-        "distinct_nontrivial = distinct texts the engine accepted on >=1 pathway, i.e. whose value was compared with Python's",
+        "expressions in observing contexts), TOOL (tool-call arguments), TV (hand-written lexical variants; judged, but not "
+        "counted as states because they may coincide with generated texts); the layers are disjoint by construction, so a "
+        "state is one distinct expression text and a transition one metabolize() call of it on one pathway (auto, math, "
+        "logic, transform[, tool]); distinct_nontrivial = distinct texts the engine accepted on >=1 pathway, i.e. whose "
+        "value was compared with Python's",
         exhaustive=True,
         layer_sizes=sizes,
         depth_completed=3 if thorough else 2,
